@@ -3,7 +3,7 @@ A callee that is neither crate-local nor listed here is reported as `unmodelled`
 import math
 
 from . import ops
-from .domain import (INT_TYPES, BoolV, ClosureV, EnumV, FloatV, FnV, IntV, IterV, LayoutV, OpaqueV, RefV, StrV, StructV, Top, TupleV,
+from .domain import (INT_TYPES, TBIT, bit_is_const, BoolV, ClosureV, EnumV, FloatV, FnV, IntV, IterV, LayoutV, OpaqueV, RefV, StrV, StructV, Top, TupleV,
                      VecV, deps_of, fresh_sid, join, ty_range)
 from .interp import Diverge, State
 
@@ -399,6 +399,8 @@ def m_int_from(I, st, c, args, body, t):
         to = ga[1]
     if isinstance(a, IntV) and to in INT_TYPES:
         return st, ops.cast_int(a, to)
+    if isinstance(a, IntV) and to in ("f32", "f64"):
+        return st, ops.int_to_float(a, to)
     if isinstance(a, BoolV) and to in INT_TYPES:
         return st, IntV.const(to, int(a.val)) if a.val is not None else IntV(to, None, 0, 1, None, a.deps)
     return st, Top(deps_of(a), "From::from")
@@ -587,7 +589,11 @@ def drive(I, st, it, from_pos=None, one=False):
                     skipped = True
                     break
                 if not (isinstance(r, BoolV) and r.val is True):
-                    cond = "maybe"
+                    # kept iff the predicate holds: remember its exact bit (if it has one) for guarded consumers
+                    if cond == "always" and isinstance(r, BoolV) and r.bit is not None and not bit_is_const(r.bit) and r.bit != TBIT:
+                        cond = ("bit", r.bit)
+                    else:
+                        cond = "maybe"
             elif kind == "filter_map":
                 st, r = I.call_value(st, f, [e])
                 r = opt_cases(I, st, r)
@@ -729,7 +735,10 @@ def m_fold(I, st, c, args, body, t):
         else:
             s2, r = I.call_value(st.copy(), f, [acc, e])
             st, _ = I.join_states(st, s2)
-            acc = join(acc, r)
+            if isinstance(cnd, tuple) and cnd[0] == "bit":
+                acc = I.gjoin(r, acc, (cnd[1], 1))       # the step happened iff the filter's predicate bit is 1
+            else:
+                acc = join(acc, r)
     return st, acc
 
 
@@ -1006,6 +1015,7 @@ def m_contains(I, st, c, args, body, t):
     if isinstance(v, VecV) and v.elems is not None:
         res = False
         d = frozenset()
+        und = []
         for e in v.elems:
             b = values_eq(I, st, e, x)
             d |= b.deps
@@ -1013,7 +1023,9 @@ def m_contains(I, st, c, args, body, t):
                 return st, BoolV(True)
             if b.val is None:
                 res = None
-        return st, BoolV(res, None, d)
+                und.append(b)
+        # contains(x)  ==  (e0 == x) || (e1 == x) || ...   (the decided-false comparisons drop out)
+        return st, BoolV(res, ("or", tuple(und)) if und else None, d)
     return st, BoolV(None, None, deps_of(v) | deps_of(x))
 
 
